@@ -62,7 +62,7 @@ func (c *clusterT) newConfig() *config.Config {
 	cfg.ReplicaCount = optInt(o, "r", 1)
 	cfg.WriteQuorum = optInt(o, "w", 1)
 	cfg.ReadQuorum = optInt(o, "rq", 1)
-	cfg.MemberCountQuorum = int32(optInt(o, "mcq", 1))
+	cfg.MemberCountQuorum = 1 // raised later with c.mcq: members are started one by one
 	cfg.ReadRepair = optInt(o, "rr", 0) == 1
 	cfg.ReplicationMode = config.SyncReplicationMode
 	cfg.LogOutput = io.Discard
@@ -210,7 +210,7 @@ func errClass(err error) string {
 		return "wq"
 	case errors.Is(err, olric.ErrReadQuorum) || strings.Contains(s, "read quorum"):
 		return "rq"
-	case errors.Is(err, olric.ErrClusterQuorum) || strings.Contains(s, "cluster quorum") || strings.Contains(s, "CLUSTERQUORUM"):
+	case errors.Is(err, olric.ErrClusterQuorum) || strings.Contains(s, "cluster quorum") || strings.Contains(s, "CLUSTERQUORUM") || strings.Contains(s, "enough peers to create quorum"):
 		return "cq"
 	case errors.Is(err, olric.ErrNoSuchLock) || strings.Contains(s, "no such lock"):
 		return "nolock"
@@ -386,6 +386,27 @@ func init() {
 	register("c.balance", func(a []string) string {
 		m := cl.members[atoi(a[0])]
 		m.db.VerifInternals().Balancer.BalanceEagerly()
+		return "ok"
+	})
+	register("c.unreach", func(a []string) string {
+		m := cl.members[atoi(a[0])]
+		err := m.db.VerifInternals().Server.VerifCloseServer()
+		// pooled connections held by the other members are gone too; they redial and are refused
+		return errClass(err)
+	})
+	register("c.mcq", func(a []string) string {
+		for _, m := range cl.members {
+			if m.alive {
+				m.db.VerifSetMemberCountQuorum(int32(atoi(a[0])))
+			}
+		}
+		cl.opts["mcq"] = a[0]
+		return "ok"
+	})
+	register("c.nummembers", func(a []string) string {
+		m := cl.members[atoi(a[0])]
+		m.db.VerifInternals().RT.SetNumMembersEagerly(int32(atoi(a[1])))
+		m.dmaps = map[string]olric.DMap{}
 		return "ok"
 	})
 	register("c.stop", func(a []string) string {
